@@ -5,7 +5,6 @@ import numpy as np
 from .. import core, gen
 
 ID = 'C15'
-FOUNDATIONS = ['harness.foundation.concurrent', 'harness.foundation.soak']   # the property's own functions under concurrent calls (validation; proofs in C12)
 LEVEL = json.loads((core.VERIF / 'harness' / 'props' / 'meta' / 'C15.json').read_text())['category'] \
     if (core.VERIF / 'harness' / 'props' / 'meta' / 'C15.json').exists() else 'other'
 RULE = ('corpus; exhaustive scope: every binary image of every shape r x c with r<=3,c<=5 / r<=5,c<=3 and 4x4 '
